@@ -66,7 +66,7 @@ func runC08(h *Harness) {
 	}
 
 	w := NewWorld(h, WorldOpts{Intermediate: tp.Chance(1, 2)})
-	lo := LocOpts{Name: "L1", URL: "http://crl.sim/a.crl", Issuer: w.A, NVers: rounds + 2, Extra: extra, Width: width, PEM: pem, EntryExt: tp.Chance(1, 3)}
+	lo := LocOpts{Name: "L1", URL: "http://crl.sim/a.crl", Issuer: w.A, NVers: rounds + 4, Extra: extra, Width: width, PEM: pem, EntryExt: tp.Chance(1, 3)}
 	switch meta := Pick(tp, "", "", "", "same-times", "no-number-v2", "no-number-v1", "same-number"); meta {
 	case "same-times":
 		lo.SameTimes = true
@@ -389,6 +389,44 @@ func runC08(h *Harness) {
 	}
 	if p := loc.Pattern(n); p != fmt.Sprintf("v%d", final+1) {
 		h.Violation("C08.d-later-refresh-applies", "stuck", "after faults stopped, two refresh periods later the probes answer from %s, expected v%d (history %v)", p, final+1, history)
+	}
+	// (e) a download that outlives its refresh period: the cycle that fetches version a is served so slowly that the
+	// next period begins (and the origin has published b by then) before it is done. Whatever the cycles do about each
+	// other, the older list must not come into force after the newer one was observed, and the newest ends up in force.
+	if trigger == "tick" && len(h.R.Violations) == 0 && final+2 < len(loc.Versions) && tp.Chance(1, 2) {
+		a, b := final+1, final+2
+		loc.Cur, loc.State, loc.SlowFirst, loc.Fetches = a, oGood, n.Interval+3*time.Minute, 0
+		h.S.Run(func(v schedView) bool { return loc.Fetches > 0 }, h.S.Now()+n.Interval+time.Minute)
+		if loc.Fetches > 0 {
+			h.Probe("download-outlives-period")
+			loc.Cur = b
+			seenB := false
+			var seq []string
+			for i := 0; i < 8; i++ {
+				h.Settle(n.Interval / 2)
+				p := loc.Pattern(n)
+				if len(seq) == 0 || seq[len(seq)-1] != p {
+					seq = append(seq, p)
+				}
+				switch p {
+				case fmt.Sprintf("v%d", b+1):
+					seenB = true
+				case fmt.Sprintf("v%d", a+1), fmt.Sprintf("v%d", final+1):
+					if seenB {
+						h.Violation("C08.old-after-new", "slow-older-download-lands-later", "a download of v%d that outlived its refresh period was put in force after v%d (published and fetched meanwhile) had been observed: sequence of probe patterns %v", a+1, b+1, seq)
+					}
+				default:
+					h.Violation("C08.b-pattern", "overlapping-cycles:"+patClass(p), "while two refresh cycles overlapped the probes showed %s (sequence %v)", p, seq)
+				}
+				if len(h.R.Violations) > 0 {
+					break
+				}
+			}
+			if len(h.R.Violations) == 0 && !seenB {
+				h.Violation("C08.d-later-refresh-applies", "stuck-after-slow-download", "four refresh periods after v%d was published the probes never showed it (sequence %v)", b+1, seq)
+			}
+			sc["overlap_seq"] = seq
+		}
 	}
 	h.R.Sample = map[string]any{"history": history, "backend": backend, "trigger": trigger, "readers": readers}
 	h.Cleanup(n)
